@@ -91,6 +91,18 @@ M = [
     ('A21 extracted routine itself rebound by a later import', 'comp', 'bct/algorithms/clustering.py',
      'def number_of_components(A):', 'from .core import score_wu as get_components\n\n\ndef number_of_components(A):',
      ['get_components', '2 times']),
+    ('A22 builtin len rebound at module level (betweenness routines)', 'betw', 'bct/algorithms/centrality.py',
+     'from .distance import reachdist\n', 'from .distance import reachdist\nlen = lambda x: 2\n',
+     ['betweenness_bin', 'edge_betweenness_bin', 'len']),
+    ('A23 np.dot replaced by a module-level store', 'betw', 'bct/algorithms/centrality.py',
+     'from .distance import reachdist\n', 'from .distance import reachdist\nnp.dot = np.multiply\n',
+     ['betweenness_bin', 'stores into an attribute of the numpy module']),
+    ('A24 range is a parameter default of edge_betweenness_bin', 'betw', 'bct/algorithms/centrality.py',
+     'def edge_betweenness_bin(G):', 'def edge_betweenness_bin(G, range=reversed):',
+     ['edge_betweenness_bin']),
+    ('A25 betweenness_bin rebound by a later def', 'betw', 'bct/algorithms/centrality.py',
+     'def module_degree_zscore(W, ci, flag=0):', 'def betweenness_bin(G):\n    return G\n\n\ndef module_degree_zscore(W, ci, flag=0):',
+     ['betweenness_bin', '2 times']),
     # resolution is fine, the definition is not the recognised one: no `problems` entry, the Lean obligation of the primitive fails
     ('L01 body of get_rng changed (a generator passed as seed is re-seeded)', 'util', 'bct/utils/miscellaneous_utilities.py',
      '    elif isinstance(seed, np.random.RandomState):\n        return seed\n', '    elif isinstance(seed, np.random.RandomState):\n        return np.random.RandomState(0)\n',
